@@ -46,7 +46,13 @@ def load_known(prop_id):
         return []
     with open(core.KNOWN_FINDINGS_FILE) as f:
         data = json.load(f)
-    return [e for e in data.get('entries', []) if e.get('property') == prop_id]
+    entries = [e for e in data.get('entries', []) if e.get('property') == prop_id]
+    # per-property staging file used while a check is being developed (same entry format)
+    staged = os.path.join(core.VERIF_DIR, 'findings', f"{prop_id}.known.json")
+    if os.path.exists(staged):
+        with open(staged) as f:
+            entries += [e for e in json.load(f).get('entries', []) if e.get('property') == prop_id]
+    return entries
 
 
 def run_workers(prop_id, units, scratch, timeout, extra_env=None):
